@@ -30,18 +30,23 @@ HEADER_SHAPES = {
     "rep": [{"name": "x-gen-%s", "value": ["v1", "v2", "v1"]}],
     "mixed": [{"name": "X-Gen-%s-Mixed", "value": ["Value One"]}, {"name": "x-gen-%s-two", "value": ["a, b"]}],
     "bin": [{"name": "x-gen-%s-bin", "value": ["AAEC/w", "/v8"]}],
+    # the same name in response headers and trailers (values differ per block)
+    "shared": [{"name": "X-Gen-Shared", "value": ["%s-1", "%s-2"]}],
 }
 
 
 def headers(shape, which):
     out = []
     for h in HEADER_SHAPES[shape]:
-        out.append({"name": h["name"] % which, "value": list(h["value"])})
+        if shape == "shared":
+            out.append({"name": h["name"], "value": [v % which for v in h["value"]]})
+        else:
+            out.append({"name": h["name"] % which, "value": list(h["value"])})
     return out
 
 
 def header_combos(full):
-    shapes = list(HEADER_SHAPES)
+    shapes = [x for x in HEADER_SHAPES if x != "shared"]
     combos = [("none", "none", "none")]
     for axis in range(3):
         for s in shapes[1:]:
@@ -52,6 +57,8 @@ def header_combos(full):
         combos.append((s, s, s))
     if not full:
         combos = [combos[0], ("rep", "none", "none"), ("none", "mixed", "none"), ("none", "none", "bin"), ("mixed", "mixed", "mixed"), ("bin", "bin", "bin")]
+    # one name in both response headers and trailers (must be last: callers index combos[-2:], [0])
+    combos.insert(1, ("none", "shared", "shared"))
     return combos
 
 
@@ -341,6 +348,8 @@ CHECK = {
     },
     "units": [
         {"name": "c02-agreement", "kind": "script", "func": "agreement"},
+        {"name": "c02-inprocess", "pkg": CC, "harness": ["connectconformance/c02_inprocess_test.go"], "test": "^TestVerifC02InProcess$",
+         "shards": {"quick": 1, "thorough": 1}, "budget_s": {"quick": 300, "thorough": 900}},
         {"name": "c02-nocrash", "pkg": CC, "harness": ["connectconformance/c02_nocrash_test.go"], "test": "^TestVerifC02NoCrash$",
          "shards": {"quick": 8, "thorough": 16}, "budget_s": {"quick": 60, "thorough": 600}},
     ],
